@@ -200,6 +200,10 @@ fn build_input(c: &C13Case) -> Input {
                     "blank" => String::new(),
                     "whitespace_only" => " \t ".to_string(),
                     "empty_chromosome_field" => format!("\t{}\t{}\t1", s, e),
+                    // ten-digit coordinates just above u32::MAX that are valid again modulo 2^32
+                    "coordinates_plus_2_32" => format!("{}\t{}\t{}\t1", ch, s as u64 + (1u64 << 32), e as u64 + (1u64 << 32)),
+                    "end_plus_2_32" => format!("{}\t{}\t{}\t1", ch, s, e as u64 + (1u64 << 32)),
+                    "start_20_digits" => format!("{}\t{}\t{}\t1", ch, "18446744073709551617", e),
                     _ => unreachable!(),
                 };
                 raw.insert(i, line);
@@ -398,6 +402,9 @@ fn c13_viols(bed: bool) -> Vec<(Viol, bool)> {
         "blank",
         "whitespace_only",
         "empty_chromosome_field",
+        "coordinates_plus_2_32",
+        "end_plus_2_32",
+        "start_20_digits",
     ];
     if !bed {
         hows.push("missing_value");
